@@ -252,7 +252,7 @@ func c16R2(p *core.Program, r *core.Report) {
 func c16R3(p *core.Program, r *core.Report) {
 	const rule = "R3"
 	r.Floor(rule, 2)
-	d := p.FuncByName("pkg/gengo", "(*gengoCtx).Doc")
+	d := ctxMethod(p, "Doc")
 	if d == nil {
 		r.Anchor(rule, "pkg/gengo.(*gengoCtx).Doc")
 		return
